@@ -46,14 +46,22 @@ def make_jobs(rng, d, njobs, nfiles):
             hdr[rng.randrange(ncols)] = rng.choice(NASTY_HEADERS[-5:])      # a name on which cleaning is not idempotent
         dia = {"delimiter": rng.choice([",", ";", "|"]), "quotechar": rng.choice(['"', "'"])}
         records = [hdr] + fs.records
+        tiny = rng.random() < 0.2
+        if tiny:
+            records = [hdr]          # a file of one physical line: every count and line number of it is 0 or 1 - also when cached
         # the same file name in different directories: a registration is known by its content AND its source file name
         os.makedirs(os.path.join(d, f"d{f}"), exist_ok=True)
         path = os.path.join(f"d{f}", "data.csv")
         runner.write_csv(os.path.join(d, path), records, **dia)
-        files.append((path, fs, dia, records))
+        files.append((path, fs, dia, records, tiny))
     jobs = []
     for j in range(njobs):
-        path, fs, dia, records = files[j % nfiles]
+        path, fs, dia, records, tiny = files[j % nfiles]
+        if tiny:
+            # what the run knows about the end of a one-line file: last(), the line counts, the stop at the scan's end
+            text = f'${path}[*][ @n = count_lines() @t = total_lines() last() -> @done = line_number() ' + rng.choice(["", "push(\"ln\", line_number()) ", "last() "]) + "]"
+            jobs.append({"op": "job", "text": text, "delimiter": dia["delimiter"], "quotechar": dia["quotechar"], "file": path})
+            continue
         fs2 = lang.FileSpec.__new__(lang.FileSpec)
         fs2.__dict__.update(fs.__dict__)
         fs2.named = False
